@@ -414,6 +414,16 @@ func (sc *Scope) selector(n *ast.SelectorExpr) Val {
 			if !ok {
 				return sc.fail("unknown ghost field %s", n.Sel.Name)
 			}
+			if (n.Sel.Name == "rpos" || n.Sel.Name == "rlen") && sc.bound == 0 {
+				// well-formedness of the abstract reader is an invariant of the trusted stream model
+				st := sc.st
+				rp, rl := e.gget(&st, "rpos", ref), e.gget(&st, "rlen", ref)
+				r := sc.reach
+				if r == "" {
+					r = "true"
+				}
+				e.assume(imp(r, and(app("bvsle", c64(0), rp), app("bvsle", rp, rl), app("bvsle", rl, c64(maxLen)))))
+			}
 			return Val{T: g.T, L: []string{sel(e.get(&sc.st, "H|ghost."+n.Sel.Name, g.S), ref)}}
 		}
 	}
@@ -505,6 +515,24 @@ func (sc *Scope) binary(n *ast.BinaryExpr) Val {
 		return boolVal(and(sc.b(sc.expr(n.X)), sc.b(sc.expr(n.Y))))
 	case token.LOR:
 		return boolVal(or(sc.b(sc.expr(n.X)), sc.b(sc.expr(n.Y))))
+	}
+	// string compared with a literal: content equality
+	if n.Op == token.EQL || n.Op == token.NEQ {
+		if lit, ok := n.Y.(*ast.BasicLit); ok && lit.Kind == token.STRING {
+			a := sc.expr(n.X)
+			if a.Loc != nil {
+				a = sc.e.load(&sc.st, a.Loc)
+			}
+			if isString(a.T) {
+				str, _ := strconv.Unquote(lit.Value)
+				st := sc.st
+				c := sc.e.strEqLit(&st, a, str)
+				if n.Op == token.NEQ {
+					c = not(c)
+				}
+				return boolVal(c)
+			}
+		}
 	}
 	a, b := sc.expr(n.X), sc.expr(n.Y)
 	if a.Loc != nil && a.T != nil && !isPtr(a.T) {
@@ -984,8 +1012,9 @@ func (e *Enc) evalClauseValAt(fr *Frame, c *Clause, at *ssa.BasicBlock, st State
 // paramNames: x0 (entry value) for each parameter x, and x itself for use in requires/ensures.
 func (e *Enc) paramNames(fr *Frame) map[string]Val {
 	m := map[string]Val{}
-	for _, p := range fr.fn.Params {
+	for i, p := range fr.fn.Params {
 		m[p.Name()+"0"] = e.val(fr, p)
+		m[fmt.Sprintf("p%d", i)] = e.val(fr, p)
 	}
 	return m
 }
